@@ -105,9 +105,9 @@ fn grammar_specs(tier: Tier) -> Vec<Spec> {
 
 fn family_scope(family: &str, tier: Tier) -> String {
     match family {
-        "strings" => format!("all strings of at most {} symbols over the 28-symbol alphabet", tier.pick(5, 7)),
+        "strings" => format!("all strings of at most {} symbols over the 28-symbol alphabet, and every Unicode scalar value in 9 contexts", tier.pick(5, 7)),
         "tokens" => format!("all viable token-kind prefixes of the Kiki grammar to depth {} and all their one-token extensions, rendered to text", tier.pick(13, 16)),
-        "asts" => format!("all files of at most {} items over the 104-item alphabet of C10", tier.pick(3, 4)),
+        "asts" => format!("all files of at most {} items over the 155-item alphabet of C10", tier.pick(3, 4)),
         "grammars" => format!("all grammars of {}", grammar_specs(tier).iter().map(|s| s.name()).collect::<Vec<_>>().join(", ")),
         _ => String::new(),
     }
@@ -116,6 +116,14 @@ fn family_scope(family: &str, tier: Tier) -> String {
 fn run_family(family: &str, tier: Tier, sink: &Sink) {
     match family {
         "strings" => {
+            // every Unicode scalar value in the contexts where the tokenizer classifies characters
+            (0u32..0x11_0000).into_par_iter().for_each(|cp| {
+                if let Some(c) = char::from_u32(cp) {
+                    for (pre, post) in [("", ""), ("a", "b"), ("$", ""), ("$T", "x"), (":", ":"), ("#[", "]"), ("//", "\n_"), ("/", "/"), ("start A struct A", "terminal Tok {}")] {
+                        sink.feed(&format!("{pre}{c}{post}"));
+                    }
+                }
+            });
             let l = tier.pick(5usize, 7usize);
             let units = crate::reflex::string_units(crate::reflex::ALPHABET.len(), l, 3);
             units.par_iter().for_each(|(prefix, subtree)| {
